@@ -7,6 +7,7 @@ import (
 
 	protocol "github.com/longportapp/openapi-protocol/go"
 	"github.com/longportapp/openapi-protocol/go/gzip"
+	"github.com/longportapp/openapi-protocol/go/verifhook"
 )
 
 func init() {
@@ -156,6 +157,7 @@ func (p *protocolV1) Pack(ctx *protocol.Context, packet *protocol.Packet, opts .
 		if packet.Body, err = gzip.Compress(packet.Body); err != nil {
 			return nil, err
 		}
+		verifhook.Point("pack:after-compress")
 
 		bl = len(packet.Body)
 		packet.Metadata.Gzip = true
